@@ -144,6 +144,8 @@ def gen_case(rng, mode=None, hash_sensitive=False):
     # ------------------------------------------------------------------ label kind / label type
     if mode in ("xy", "pairs", "rows_dense"):
         kind = rng.choice(["str", "str", "int", "float", "cat", "list1", "multi", "reg"])
+        # a class label may be any hashable value: tuples (one-hot codes, (row, column) cells) are single labels, not label lists
+        if mode != "rows_dense" and not hash_sensitive and rng.random() < .1: kind = "tup"
     elif mode == "rows_sparse":
         kind = rng.choice(["str", "int", "int", "float", "cat", "reg", "multi"])
     elif mode == "csv":        kind = "str"
@@ -162,6 +164,7 @@ def gen_case(rng, mode=None, hash_sensitive=False):
     spec["elem"] = elem
     if   kind == "str":   ltype = rng.choice([None, "c"])
     elif kind in ("int", "float"): ltype = "c"
+    elif kind == "tup":   ltype = rng.choice([None, "c"])
     elif kind == "reg":   ltype = rng.choice([None, "r"])
     elif kind == "cat":   ltype = rng.choice([None, "c"])
     elif kind == "list1": ltype = rng.choice([None, "c", "m"])
@@ -178,6 +181,7 @@ def gen_case(rng, mode=None, hash_sensitive=False):
         if hash_sensitive and len(set(ys)) < 4:
             classes = rng.sample(STR_POOL, 6); ys = [classes[i % 6] for i in range(n)]; rng.shuffle(ys); pat = "uniform"
     elif kind == "int":   ys, classes, pat = _pick_labels(rng, INT_POOL, n)
+    elif kind == "tup":   ys, classes, pat = _pick_labels(rng, rng.choice([[[1, 0, 0], [0, 1, 0], [0, 0, 1]], [[0, 0], [0, 1], [1, 0], [1, 1], [2, 0]], [["a", 1], ["a", 2], ["b", 1]]]), n)
     elif kind == "float": ys, classes, pat = _pick_labels(rng, FLOAT_POOL, n)
     elif kind == "reg":
         ys = [_num(rng) for _ in range(n)]; pat = "regression"
@@ -515,6 +519,7 @@ def expected_examples(spec):
         elif mode == "arff_sparse":  f = ("sparse", {c["name"]: (float(v) if c["type"] == "numeric" else v) for v, c in zip(x, spec["cols"]) if not (c["type"] == "numeric" and v == 0)})
         else:                        f = ("sparse", {int(k): float(v) for k, v in x})
         lab = y
+        if spec["label_kind"] == "tup": lab = tuple(y)
         if mode in ("libsvm", "manik"): lab = [str(l) for l in y]
         if mode in ("arff_dense", "arff_sparse") and spec["label_kind"] in ("int", "float", "reg"): lab = float(y)
         out.append((f[0], f[1], lab))
@@ -527,7 +532,7 @@ def build_args(spec, tmpdir, tag=""):
     from coba.environments import CsvSource, ArffSource, LibSvmSource, ManikSource
     mode, lt, take = spec["mode"], spec["label_type"], spec["take"]
     levels = spec["levels"]
-    def lab(y): return Categorical(y, list(levels)) if spec["label_kind"] == "cat" else (list(y) if isinstance(y, list) else y)
+    def lab(y): return Categorical(y, list(levels)) if spec["label_kind"] == "cat" else tuple(y) if spec["label_kind"] == "tup" else (list(y) if isinstance(y, list) else y)
     def feats(x):
         fk = spec["feat_kind"]
         if fk == "tuple": return tuple(x)
